@@ -30,7 +30,8 @@ def obsKind : Obs → String
 /-- forget ghost history the acceptor does not need (keeps the state set small); the log keeps the ring's window -/
 def strip (P : Params) (s : St) : St :=
   { s with submitted := [], wire := [], log := s.log.drop (s.log.length - P.logSize), nextId := 0, discCalls := 0,
-           madeAt := 0, probesStarted := 0, probesAtClear := 0, decisions := [], rxLines := [] }
+           madeAt := 0, probesStarted := 0, probesAtClear := 0, decisions := [], rxLines := [],
+           closeUnpub := false, unpubCloseAt := 0, unpubClosers := [], unpubCloseReturned := false }
 
 def dedup (l : List St) : List St := l.foldl (fun acc x => if acc.contains x then acc else acc ++ [x]) []
 
